@@ -4,11 +4,25 @@ package main
 // regenerated as Lean numerals / lists. A construct that cannot be mapped yields an identifier that does not elaborate.
 
 import (
+	"bytes"
 	"fmt"
 	"go/ast"
+	"go/printer"
 	"go/token"
 	"strconv"
+	"strings"
 )
+
+// exact source text of a node (gofmt rendering, white space collapsed to single blanks)
+var c06Fset *token.FileSet
+
+func c06Src(n ast.Node) string {
+	var b bytes.Buffer
+	if err := printer.Fprint(&b, c06Fset, n); err != nil {
+		return "<unprintable>"
+	}
+	return strings.Join(strings.Fields(b.String()), " ")
+}
 
 func c06CharLit(e ast.Expr) (int, bool) {
 	if bl, ok := e.(*ast.BasicLit); ok && bl.Kind == token.CHAR {
@@ -36,38 +50,13 @@ func c06Stmts(fd *ast.FuncDecl) []string {
 	walk = func(list []ast.Stmt) {
 		for _, st := range list {
 			switch s := st.(type) {
-			case *ast.AssignStmt:
-				lhs := ""
-				for i, x := range s.Lhs {
-					if i > 0 {
-						lhs += ", "
-					}
-					lhs += c06Expr(x)
-				}
-				rhs := ""
-				for i, x := range s.Rhs {
-					if i > 0 {
-						rhs += ", "
-					}
-					rhs += c06Expr(x)
-				}
-				out = append(out, lhs+" "+s.Tok.String()+" "+rhs)
-			case *ast.ReturnStmt:
-				r := "return"
-				for i, x := range s.Results {
-					if i > 0 {
-						r += ","
-					}
-					r += " " + c06Expr(x)
-				}
-				out = append(out, r)
-			case *ast.ExprStmt:
-				out = append(out, c06Expr(s.X))
+			case *ast.AssignStmt, *ast.ReturnStmt, *ast.ExprStmt, *ast.IncDecStmt, *ast.DeclStmt:
+				out = append(out, c06Src(st))
 			case *ast.IfStmt:
 				if s.Init != nil {
 					walk([]ast.Stmt{s.Init})
 				}
-				out = append(out, "if "+c06Expr(s.Cond))
+				out = append(out, "if "+c06Src(s.Cond))
 				walk(s.Body.List)
 				if s.Else != nil {
 					out = append(out, "else")
@@ -78,12 +67,18 @@ func c06Stmts(fd *ast.FuncDecl) []string {
 					}
 				}
 			case *ast.RangeStmt:
-				out = append(out, "range "+c06Expr(s.X))
+				out = append(out, "range "+c06Src(s.X))
 				walk(s.Body.List)
 			case *ast.ForStmt:
 				h := "for"
+				if s.Init != nil {
+					h += " " + c06Src(s.Init) + ";"
+				}
 				if s.Cond != nil {
-					h += " " + c06Expr(s.Cond)
+					h += " " + c06Src(s.Cond)
+				}
+				if s.Post != nil {
+					h += "; " + c06Src(s.Post)
 				}
 				out = append(out, h)
 				walk(s.Body.List)
@@ -100,7 +95,10 @@ func c06Stmts(fd *ast.FuncDecl) []string {
 	return out
 }
 
-func extractC06Deep(l *lean, pf, df *ast.File) {
+func extractC06Deep(l *lean, _, _ *ast.File) {
+	var pf, df *ast.File
+	c06Fset, pf = parseFile("network/dag/parser.go")
+	fsd, df := parseFile("network/dag/dag.go")
 	// ---- isJWSSerialization: separator byte, number of segments, first byte of the JSON serialization, the calls
 	sep, sepOK := 0, false
 	segs, segsOK := 0, false
@@ -135,4 +133,41 @@ func extractC06Deep(l *lean, pf, df *ast.File) {
 	l.def("framingJsonByte", "Nat", c06NatOr(jb, jbOK, "framingJsonByte"), jb)
 	l.def("framingCalls", "List String", leanStrList(calls), calls)
 	l.def("framingStmts", "List String", leanStrList(c06Stmts(funcDecl(pf, "isJWSSerialization"))), c06Stmts(funcDecl(pf, "isJWSSerialization")))
+
+	c06Fset = fsd
+	// ---- dag.go: shelf and key names, and the bodies of the functions NutsModel/C06/Shelf.lean mirrors
+	for _, n := range []string{"metadataShelf", "numberOfTransactionsKey", "highestClockValue", "headRefKey", "transactionsShelf", "clockShelf"} {
+		v := c06ConstStr(df, n)
+		l.def("dag_"+n, "String", fmt.Sprintf("%q", v), v)
+	}
+	for _, fn := range []string{"parseHashList", "appendHashList", "indexClockValue", "getRoots", "addSingle", "add", "visitBetweenLC", "setNumberOfTransactions", "setHighestClockValue", "setHead", "bytesToClock", "bytesToCount"} {
+		var fd *ast.FuncDecl
+		for _, d := range df.Decls {
+			if x, ok := d.(*ast.FuncDecl); ok && x.Name.Name == fn {
+				fd = x
+			}
+		}
+		st := c06Stmts(fd)
+		if fd == nil {
+			st = []string{"<missing:" + fn + ">"}
+		}
+		l.def("dagBody_"+fn, "List String", leanStrList(st), st)
+	}
+	// hash.SHA256HashSize
+	_, hf := parseFile("crypto/hash/sha256.go")
+	hs, hsOK := 0, false
+	ast.Inspect(hf, func(n ast.Node) bool {
+		if vs, ok := n.(*ast.ValueSpec); ok {
+			for i, id := range vs.Names {
+				if id.Name == "SHA256HashSize" && i < len(vs.Values) {
+					if bl, ok := vs.Values[i].(*ast.BasicLit); ok && bl.Kind == token.INT {
+						v, err := strconv.Atoi(bl.Value)
+						hs, hsOK = v, err == nil
+					}
+				}
+			}
+		}
+		return true
+	})
+	l.def("sha256HashSize", "Nat", c06NatOr(hs, hsOK, "sha256HashSize"), hs)
 }
